@@ -50,6 +50,10 @@ func rpRootText(ms []rpMention) string {
 			lines = append(lines, fmt.Sprintf(`  "p%d": "x"|// {or: ["%s", "@%s"]}`, i, n0, m.Ns[1]))
 		case "orset":
 			lines = append(lines, fmt.Sprintf(`  "p%d": "x"|// {or: [{type: "%s"}, {type: "integer"}]}`, i, n0))
+		case "typenull":
+			lines = append(lines, fmt.Sprintf(`  "p%d": null|// {type: "%s", nullable: true}`, i, n0))
+		case "ornull":
+			lines = append(lines, fmt.Sprintf(`  "p%d": null|// {or: ["%s", "integer"], nullable: true}`, i, n0))
 		case "allOf":
 			rules = append(rules, fmt.Sprintf(`allOf: "%s"`, n0))
 		case "addprops":
@@ -211,7 +215,21 @@ func rpEvalAfter(cs rpCase, warm []string) []core.Finding {
 			fs = append(fs, core.Finding{Class: "refs:used-set:" + rpPositions(cs), What: fmt.Sprintf("UsedUserTypes() = %v, the root mentions %v\n%s", used, want, rpDump(cs))})
 		}
 		cerr := s.Check()
+		// a null example on a node that refers to a registered type is refused with 1301 by the library; whether
+		// that is right is not settled by the statement (C01 leaves null examples of nullable nodes open): such a
+		// project may be refused for that reason before a missing type is met
+		nullOnRegistered := false
+		for _, m := range cs.Root {
+			if m.Pos == "typenull" || m.Pos == "ornull" {
+				for _, r := range cs.Registered {
+					if r == m.Ns[0] {
+						nullOnRegistered = true
+					}
+				}
+			}
+		}
 		switch {
+		case nullOnRegistered && cerr != nil && (errCode(cerr) == 1301 || errCode(cerr) == 204 || errCode(cerr) == 210):
 		case len(cs.Missing) == 0 && cerr != nil && errCode(cerr) != 1302:
 			// rejected for another reason than a missing type: outside the statement (counted, not a verdict)
 		case len(cs.Missing) == 0 && cerr != nil:
